@@ -264,7 +264,7 @@ impl Aes128CbcDec {
             None => r matches Err(e) && e is DecryptionFailure }
     { unimplemented!() }
 }
-// R7 helpers for a padding-removal helper of crypt.rs (optional item `pkcs7 helper`)
+// R7 helpers for a padding-removal helper of crypt.rs (optional item `pkcs7_helper`)
 /// `(lo..hi).contains(x)`
 #[verifier::external_body]
 fn hoist_range_contains_usize(lo: usize, hi: usize, x: &usize) -> (r: bool) ensures r == (lo <= *x < hi) { (lo..hi).contains(x) }
@@ -637,6 +637,6 @@ impl Decoder {
 //@@ Decoder::decrypt
 }
 // a free padding-removal helper of crypt.rs, if this tree has one (`fn NAME(x: &[u8]) -> Result<&[u8]>`): see unit.py
-//@@ pkcs7 helper
+//@@ pkcs7_helper
 }
 fn main(){}
